@@ -19,5 +19,6 @@ int xv_ap_snp_czdc(char *s, size_t n, const char *f, char c, size_t v, char d);
 #include "env/attrpath_env.h"
 #include "contracts/attrpath.h"
 const char *nondet_cptr(void);
-#define AP_GHOST_HAVOC() do { xv_ap_base = nondet_cptr(); xv_ap_len = nondet_size_t(); xv_ap_j = nondet_size_t(); \
-    xv_ap_q = nondet_size_t(); xv_ap_strtol_val = nondet_long(); xv_ap_strtol_used = nondet_size_t(); } while (0)
+#define AP_GHOST_HAVOC() do { xv_ap_base = NULL; /* bound by is_fresh in the parser contracts; NULL keeps the strlen shortcut off elsewhere */ xv_ap_len = nondet_size_t(); xv_ap_j = nondet_size_t(); \
+    xv_ap_q = nondet_size_t(); xv_ap_a = nondet_size_t(); xv_ap_trust_shape = 0; xv_ap_klen[0] = nondet_size_t(); xv_ap_klen[1] = nondet_size_t(); xv_ap_klen[2] = nondet_size_t(); xv_ap_klen[3] = nondet_size_t(); \
+    xv_ap_dlen[0] = nondet_size_t(); xv_ap_dlen[1] = nondet_size_t(); xv_ap_dlen[2] = nondet_size_t(); xv_ap_dlen[3] = nondet_size_t(); xv_ap_g_comp = (struct attr_pcomp *)nondet_cptr(); xv_ap_g_key = (char *)nondet_cptr(); xv_ap_strtol_val = nondet_long(); xv_ap_strtol_used = nondet_size_t(); } while (0)
